@@ -1043,7 +1043,7 @@ def shrink_hist(insts, proxies, ops, key):
 # ----------------------------------------------------------------------------------------------
 # C. real contexts over loop-back TCP
 # ----------------------------------------------------------------------------------------------
-def run_tcp(insts, proxies, ops, skip_force_on_free=False, op_timeout=4.0, equalise=None):
+def run_tcp(insts, proxies, ops, skip_cells=(), op_timeout=4.0, equalise=None):
     """Same observations as run_hist, with real started contexts; insts[0] is the server.
     A stuck operation is reported as died=(k, 'HANG')."""
     rpc, _ = _imports()
@@ -1097,7 +1097,10 @@ def run_tcp(insts, proxies, ops, skip_force_on_free=False, op_timeout=4.0, equal
             for k, o in enumerate(ops):
                 state["k"] = k
                 kind = o[0]
-                if kind == "force" and skip_force_on_free and owner() is None:
+                act = {"lock": "ACQUIRE", "unlock": "RELEASE", "force": "FORCE_RELEASE", "islocked": "QUERY"}.get(kind)
+                if act is not None and (act, owner() is None) in skip_cells:
+                    # the direct drive (A) showed that this request shape gets no reply (worker dies): over real
+                    # contexts the caller would wait forever; it is reported there, not re-tried here
                     res["skipped"] += 1
                     res["obs"].append(None)
                     continue
@@ -1416,14 +1419,20 @@ def run(ck):
         names, proxies = gen_config(rng)
         tcp.append((names, proxies, gen_ops(rng, names, proxies, rng.randint(1, 25), raw=False), "random"))
     t_tcp = time.time()
+    hangs = 0
     for item in tcp:
         names, proxies, ops, kind = item[:4]
         equalise = item[4] if len(item) > 4 else None
+        if hangs >= 3:
+            ck.count("tcp:not-run-after-3-hanging-histories")
+            continue
         ev = eval_hist(names, proxies, ops, "tcp",
-                       skip_force_on_free=(force_free_crashes and kind != "confirm-hang"),
-                       op_timeout=1.5 if kind == "confirm-hang" else 30.0, equalise=equalise)
+                       skip_cells=(() if kind == "confirm-hang" else frozenset(crash_cells)),
+                       op_timeout=1.5 if kind == "confirm-hang" else (30.0 if hangs == 0 else 5.0), equalise=equalise)
+        if ev["res"]["died"] and kind != "confirm-hang":
+            hangs += 1
         ops2, res2 = ev["ops"], ev["res"]
-        ck.count("tcp:skipped-force-on-free(known crash)", ev["raw"].get("skipped", 0))
+        ck.count("tcp:skipped-request-shapes-that-crash-the-worker-in-the-direct-drive", ev["raw"].get("skipped", 0))
         ck.note_case(("tcp", tuple(names), tuple(proxies), tuple(ops2)), any(o[0] == "lock" for o in ops2))
         ck.count("tcp:%s" % kind)
         ck.count("tcp:same-name-clients" if len(set(names[1:])) < len(names[1:]) else "tcp:distinct-names")
